@@ -203,12 +203,53 @@ class Body:
         return [(p, b) for p in self.pred[b]]
 
 
+TINY_CLOSURE_BLOCKS = 3
+
+
+def canonical_closure_numbers(text):
+    """rustc numbers the closures of a function in source order, so adding `.ok_or_else(|| err(..))` in front of the closure a rule is about would shift
+    its name.  Closures of at most TINY_CLOSURE_BLOCKS basic blocks (error constructors, one-expression adapters) are numbered after the others; the relative
+    order inside each group is kept.  The renaming is applied to every occurrence of the path in the fact file (bodies, parents, closure aggregates)."""
+    d = json.loads(text)
+    sizes = {b["path"]: len(b["blocks"]) for b in d["bodies"] if "{closure#" in b["path"]}
+    if not sizes:
+        return text
+    seg = re.compile(r"^(.*)::\{closure#(\d+)\}$")
+    groups = {}
+    for p in sizes:
+        m = seg.match(p)
+        groups.setdefault(m.group(1), []).append(int(m.group(2)))
+    local = {}          # (parent, old index) -> new index
+    for parent, idxs in groups.items():
+        idxs.sort()
+        order = sorted(idxs, key=lambda k: (sizes["%s::{closure#%d}" % (parent, k)] <= TINY_CLOSURE_BLOCKS, k))
+        for new, old in enumerate(order):
+            local[(parent, old)] = idxs[new]
+
+    def rename(p):
+        m = seg.match(p)
+        if not m:
+            return p
+        parent, k = m.group(1), int(m.group(2))
+        return "%s::{closure#%d}" % (rename(parent), local.get((parent, k), k))
+    ren = {p: rename(p) for p in sizes}
+    ren = {a: b for a, b in ren.items() if a != b}
+    if not ren:
+        return text
+    olds = sorted(ren, key=len, reverse=True)
+    for i, a in enumerate(olds):
+        text = text.replace(json.dumps(a)[1:-1], "\x00CLOSURE%d\x00" % i)
+    for i, a in enumerate(olds):
+        text = text.replace("\x00CLOSURE%d\x00" % i, json.dumps(ren[a])[1:-1])
+    return text
+
+
 class Facts:
     def __init__(self, path, config=None):
         self.path = path
         self.config = config
         with open(path) as fh:
-            d = json.load(fh)
+            d = json.loads(canonical_closure_numbers(fh.read()))
         self.raw = d
         self.crate = d["crate"]
         self.rustc = d["rustc"]
